@@ -1079,6 +1079,8 @@ func (b *Builder) GenMethod(name string) *Method {
 	if b.chance(0.06) {
 		m.Notations = append(m.Notations, Notation{Name: "match", Args: []string{"none"}})
 	}
+	// the settings commute: their order in the comment carries no meaning
+	b.R.Shuffle(len(m.Notations), func(i, j int) { m.Notations[i], m.Notations[j] = m.Notations[j], m.Notations[i] })
 	if named {
 		m.Src.Name = []string{"in", "from", "s"}[b.R.Intn(3)]
 		m.Dst.Name = []string{"out", "to", "d"}[b.R.Intn(3)]
